@@ -148,10 +148,11 @@ class _Lexer:
   def read_eval_string(self, path):
     """ninja Lexer::ReadEvalString.  Returns a token list [('lit', s)|('var', name)]."""
     out = []
+    line0 = self.line()
     while True:
       c = self._ch()
       if self.i >= self.n:
-        raise NinjaError("unexpected EOF")
+        raise NinjaError(f"line {line0}: unexpected EOF")
       if c not in "$ :\r\n|\0":
         j = self.i
         while j < self.n and self.s[j] not in "$ :\r\n|\0":
@@ -580,18 +581,22 @@ def check_plan(out_dir, expect, enum_max_steps=8):
     lines = text.split("\n")
     m = re.search(r"line (\d+)", plan.error)
     err_line = lines[int(m.group(1)) - 1] if m and 0 < int(m.group(1)) <= len(lines) else ""
-    if kind == "bad $-escape" and err_line.startswith("  module = "):
-      add("plan not loadable by ninja: bad $-escape in the unescaped `module =` binding",
+    if err_line.startswith("  module = ") and "$" in err_line:
+      add("plan not loadable by ninja: `$` in the unescaped `module =` binding",
           error=plan.error, line=err_line)
     elif kind == "multiple rules generate" and _same_output_twice(lines):
-      add("plan not loadable by ninja: two different sources are given the same output path "
-          "(same module name for different sources)", error=plan.error, lines=_same_output_twice(lines))
+      dup = _same_output_twice(lines)
+      add("plan not loadable by ninja: two different sources are given the same output path"
+          + _modname_qualifier(lines, dup[2]), error=plan.error, lines=dup)
     else:
       add(f"plan not loadable by ninja (paths contain {special_all}): " + kind, error=plan.error,
           line=err_line)
+    # ninja refuses the whole file: there is no plan to judge further
+    stats["not_judged_unloadable"] = 1
+    return {"findings": findings, "stats": stats, "plan": plan}
   # build statements pytype wrote but ninja does not see as statements
   corrupted = False
-  if plan.raw_build_lines != len(plan.builds) and not plan.error:
+  if plan.raw_build_lines != len(plan.builds):
     corrupted = True
     add("build statement swallowed by ninja line continuation ($ at end of unescaped module name)",
         written=plan.raw_build_lines, parsed=len(plan.builds))
@@ -660,8 +665,8 @@ def check_plan(out_dir, expect, enum_max_steps=8):
     if info and info.get("module") is not None and mod not in info["module"]:
       want = info["module"][0]
       if "$" in want:
-        add(f"module name changed by ninja evaluation of the unescaped `module =` binding: "
-            f"{dollar_class(want)}", step=b.to_json(), expected=info["module"], got=mod)
+        add("module name changed by ninja evaluation of the unescaped `module =` binding",
+            step=b.to_json(), expected=info["module"], got=mod, dollar_class=dollar_class(want))
       else:
         add("module binding does not name the module of the source file", step=b.to_json(),
             expected=info["module"], got=mod)
@@ -684,7 +689,7 @@ def check_plan(out_dir, expect, enum_max_steps=8):
     n = sum(1 for b in steps if reporting(b))
     if n != 1:
       cls = char_classes(f)
-      if not steps and cls != "none" and not plan.error:
+      if not steps and cls != "none":
         add(f"path changed by ninja escaping: {cls} (no step has the requested file as source)",
             requested=f)
       else:
@@ -692,6 +697,14 @@ def check_plan(out_dir, expect, enum_max_steps=8):
             steps=[b.to_json() for b in steps])
 
   # ---- imports entries and the closure condition
+  def shared(i, consequence, what):
+    b = plan.builds[i]
+    mod = b.bindings.get("module")
+    q = ("empty module name: sources outside the pythonpath" if mod == "" else "same module name")
+    add(f"several steps share one imports file, the last writer wins ({q})", step=b.to_json(),
+        consequence=consequence, what=what,
+        sharers=[plan.builds[j].ins for j in imports_file_users[b.bindings.get("imports")]])
+
   reads = []
   for i, b in enumerate(plan.builds):
     rd = set()
@@ -726,6 +739,7 @@ def check_plan(out_dir, expect, enum_max_steps=8):
         add("imports entry not produced by any step: short path contains a space, so "
             "imports_map_loader's split(' ', 1) cuts it in the wrong place", step=b.to_json(),
             line=raw, parsed=[short, path], meant=list(resplit))
+        have_keys.add(resplit[0])        # the consequence is reported once, here
       elif os.path.isfile(ap) and ap.endswith((".pyi", ".pytd")) and not ap.startswith(pyi_dir):
         stats["ondisk_entries"] += 1      # a stub that exists independently of the build: not judged
       else:
@@ -742,9 +756,9 @@ def check_plan(out_dir, expect, enum_max_steps=8):
         key = (f"reader not ordered after producer (missing dependency edge): {stage} step reads "
                f"{pstage} output")
         if i in shared_users:
-          key = ("imports file shared by several steps (same module name for different sources): "
-                 + key)
-        add(key, reader=b.to_json(), producer=plan.builds[q].to_json(), path=p)
+          shared(i, key, p)
+        else:
+          add(key, reader=b.to_json(), producer=plan.builds[q].to_json(), path=p)
     # completeness against the generator's ground truth
     src = b.ins[0] if b.ins else None
     want_local = expect.get("expected_deps", {}).get(src, [])
@@ -757,10 +771,11 @@ def check_plan(out_dir, expect, enum_max_steps=8):
         continue   # by design the first pass of a cycle does not see the cycle itself
       if stem not in have_keys:
         key = f"imports map lacks a module the source certainly imports ({stage}" + (
-            ", member of the same cycle)" if same else ")")
+            ", target also analysed in two passes)" if same else ")")
         if i in shared_users:
-          key = "imports file shared by several steps (same module name for different sources): " + key
-        add(key, step=b.to_json(), missing=stem, have=sorted(have_keys))
+          shared(i, key, stem)
+        else:
+          add(key, step=b.to_json(), missing=stem, have=sorted(have_keys))
     for k in expect.get("default_keys", {}).get(src, []):
       if k not in have_keys:
         add("imports map lacks the default-stub entry of a system module the source imports",
@@ -817,6 +832,19 @@ def _same_output_twice(lines):
         return [seen[o], src, o]
       seen.setdefault(o, src)
   return None
+
+
+def _modname_qualifier(lines, out_escaped):
+  """The `module =` values of the statements that claim the same output."""
+  mods = []
+  for k, ln in enumerate(lines):
+    if ln.startswith("build " + out_escaped + ": "):
+      for nxt in lines[k + 1:k + 3]:
+        if nxt.startswith("  module = "):
+          mods.append(nxt[len("  module = "):])
+  if mods and all(m == "" for m in mods):
+    return " (empty module name: sources outside the pythonpath)"
+  return " (same module name)"
 
 
 def _error_kind(msg):
